@@ -1,10 +1,14 @@
 #!/bin/sh
 # Offline build of the verification framework: all Coq theories (full .vo build) and the Rust harness.
-set -e
+# Individual failures do not abort the setup: every check rebuilds exactly what it needs and reports itself.
 cd "$(dirname "$0")"
 export CARGO_NET_OFFLINE=true
 sh coq/gen_project.sh
-timeout 3000 make -C coq -j16
+timeout 3000 make -C coq -k -j16 >/dev/null 2>&1 || echo "setup: some Coq files did not build (the checks that need them will say so)"
 cp /repo/Cargo.lock harness/Cargo.lock 2>/dev/null || true
-(cd harness && timeout 3000 cargo build --offline --bins)
+(cd harness && timeout 3000 cargo build --offline --bins 2>&1 | tail -3) || true
+for b in harness/src/bin/*.rs; do
+  n=$(basename "$b" .rs)
+  [ -x "harness/target/debug/$n" ] || (cd harness && timeout 3000 cargo build --offline --bin "$n" 2>&1 | tail -3) || true
+done
 echo setup-ok
